@@ -149,7 +149,7 @@ where
             encoding,
             from_header.line_encoding(),
             comp_dir,
-            comp_name.clone(),
+            comp_name,
             comp_file_info,
         );
 
@@ -161,11 +161,8 @@ where
             // something there makes the indexing easier.
             0
         } else {
-            // Rows of a version 5 program may name file 0, the primary file.
-            // Keep an entry for it, so that `files` is indexed by the file
-            // index of the input.
-            let default_directory = program.default_directory();
-            files.push(program.add_file(comp_name, default_directory, comp_file_info));
+            // We don't add the first file to `files`, but still allow
+            // it to be referenced from converted instructions.
             1
         };
 
@@ -210,6 +207,8 @@ where
         let mut instructions = from_program.header().instructions();
         let mut current_sequence_base_address = None;
         let mut from_base_address = 0;
+        // The entry that stands for file 0 (the primary file) of a version 5 program.
+        let mut primary_file = None;
 
         while let Some(instruction) = instructions.next_instruction(from_program.header())? {
             match instruction {
@@ -262,18 +261,42 @@ where
                                     program.row().op_index = from_row.op_index();
                                     program.row().file = {
                                         let file = from_row.file_index();
-                                        // `files` starts at file 1 for version <= 4 (where file 0
-                                        // is invalid) and at file 0 from version 5 on.
-                                        let index = if program.version() <= 4 {
-                                            file.checked_sub(1)
-                                                .ok_or(write::ConvertError::InvalidFileIndex)?
+                                        if file == 0 && program.version() >= 5 {
+                                            // File 0 is the primary file. gimli has no id for it, so
+                                            // name an entry equal to it: the existing one if the table
+                                            // has a copy (as clang's tables do), a new last one
+                                            // otherwise. Files 1.. keep their numbers either way, which
+                                            // the file attributes of the unit's entries rely on.
+                                            match primary_file {
+                                                Some(id) => id,
+                                                None => {
+                                                    let from_file = from_program
+                                                        .header()
+                                                        .file(0)
+                                                        .ok_or(write::ConvertError::InvalidFileIndex)?;
+                                                    let name =
+                                                        self.convert_line_string(from_file.path_name())?;
+                                                    let info = Some(write::FileInfo {
+                                                        timestamp: from_file.timestamp(),
+                                                        size: from_file.size(),
+                                                        md5: *from_file.md5(),
+                                                    });
+                                                    let directory = program.default_directory();
+                                                    let id = program.add_file(name, directory, info);
+                                                    primary_file = Some(id);
+                                                    id
+                                                }
+                                            }
                                         } else {
-                                            file
-                                        };
-                                        if index >= files.len() as u64 {
-                                            return Err(write::ConvertError::InvalidFileIndex);
+                                            // `files` starts at file 1 (file 0 is invalid for version <= 4).
+                                            let index = file
+                                                .checked_sub(1)
+                                                .ok_or(write::ConvertError::InvalidFileIndex)?;
+                                            if index >= files.len() as u64 {
+                                                return Err(write::ConvertError::InvalidFileIndex);
+                                            }
+                                            files[index as usize]
                                         }
-                                        files[index as usize]
                                     };
                                     program.row().line = match from_row.line() {
                                         Some(line) => line.get(),
